@@ -165,7 +165,7 @@ pub struct Ctx {
     pub evaluations: u64,
 }
 
-pub const MAX_VIOLATIONS_KEPT: usize = 40;
+pub const MAX_VIOLATIONS_KEPT: usize = 600;
 
 impl Ctx {
     pub fn new(prop: &str, tier: Tier, seed: u64) -> Ctx {
@@ -687,6 +687,8 @@ pub fn coordinator(check: &dyn Check, a: &RunArgs) -> i32 {
     let workers = a.workers.min(total.max(1));
     let spawn = |i: u64, attempt: u32, resume_after: Option<u64>| {
         let out = work.join(format!("shard{i}.a{attempt}.json"));
+        // a respawned shard only gets what is left of the budget
+        let budget = if attempt > 0 { budget.saturating_sub(t0.elapsed().as_secs()).max(1) } else { budget };
         let mut cmd = std::process::Command::new(&exe);
         cmd.arg("worker")
             .arg(id)
@@ -976,7 +978,9 @@ pub fn coordinator(check: &dyn Check, a: &RunArgs) -> i32 {
         "wall_s": wall,
         "violations": reported.len(),
     });
-    let evdir = Path::new(VERIF_ROOT).join("evidence");
+    // VERIF_EVIDENCE_DIR redirects the evidence file (used when running against a seeded change, so
+    // that the committed evidence always describes the unchanged tree)
+    let evdir = std::env::var_os("VERIF_EVIDENCE_DIR").map(PathBuf::from).unwrap_or_else(|| Path::new(VERIF_ROOT).join("evidence"));
     let _ = std::fs::create_dir_all(&evdir);
     let mut f = std::fs::File::create(evdir.join(format!("{id}.json"))).unwrap();
     f.write_all(serde_json::to_string_pretty(&ev).unwrap().as_bytes())
